@@ -1,5 +1,6 @@
 import Hive.Proofs.Ads
 import Hive.Proofs.AdsTrieExt
+import Hive.Proofs.AdsGlueTrie
 import Hive.Model.AdsTrieLine
 import Hive.Proofs.AdsConc
 import Hive.Proofs.AdsRealm
@@ -432,6 +433,71 @@ example :
     (runOps [.put [true, false, true] [1], .put [true, false, false] [2]]).digest freeHash
       = .inner .nil (.inner (.inner (.leaf [true, false, false] [2]) (.leaf [true, false, true] [1])) .nil) := by
   decide
+
+/-! ## the glue over the trie model: no abstract `rootOf` left
+
+`Hive/Proofs/AdsGlueTrie.lean` collects the calls the glue issues on the trie along a history
+(`trieCalls`: `Set` → `Update(path key, value)`, `Delete` → `Delete(path key)` only when `has` said
+true) for a path hasher `ph` (SHA-256 in the code) of which only a fixed output length and "no
+collision among the keys `K` that occur" (`InjOn`) are assumed, and runs them on the trie model
+*with extension nodes*.  The content-only-root clause then no longer mentions an assumed root
+function. -/
+
+open SMT in
+/-- After every history of the glue, the trie it drives holds the plain map (read along the path hasher). -/
+theorem C09_glue_over_trie_contents (c : Cfg R) (ph : Key → Path) (n : Nat) (hlen : ∀ k, (ph k).length = n)
+    (K : List Key) (hinj : InjOn ph K) (ops : List Op) (hc : CleanFrom c init ops) (hK : ∀ k ∈ keysOf ops, k ∈ K) :
+    ∀ k ∈ K, (runOpsT (trieCalls c ph init ops)).get 0 (ph k) = Spec.final ops k := by
+  intro k hk
+  have hw := trieCalls_width c ph n hlen ops (init : St R)
+  rw [(C09_trie_ext_expand n _ hw).2.2 (ph k) (hlen k)]
+  exact (specRun_trieCalls c ph K hinj ops hc hK).on k hk
+
+open SMT in
+/-- **Content-only root, end to end**: two histories of the glue (any orders, overwrites,
+delete-and-reinsert, failed calls, commits, reopens at commit points) with equal plain maps drive the
+trie with extension nodes to equal root digests — for any hash functions. -/
+theorem C09_glue_over_trie_root_content_only {H : Type} (h : Hash H) (c : Cfg R) (ph : Key → Path) (n : Nat)
+    (hlen : ∀ k, (ph k).length = n) (K : List Key) (hinj : InjOn ph K) (ops₁ ops₂ : List Op)
+    (h₁ : CleanFrom c init ops₁) (h₂ : CleanFrom c init ops₂)
+    (hK₁ : ∀ k ∈ keysOf ops₁, k ∈ K) (hK₂ : ∀ k ∈ keysOf ops₂, k ∈ K)
+    (heq : ∀ k, Spec.final ops₁ k = Spec.final ops₂ k) :
+    (runOpsT (trieCalls c ph init ops₁)).digest h = (runOpsT (trieCalls c ph init ops₂)).digest h :=
+  C09_trie_ext_history_independent h n _ _ (trieCalls_width c ph n hlen ops₁ init) (trieCalls_width c ph n hlen ops₂ init)
+    (specRun_trieCalls_eq c ph K hinj ops₁ ops₂ h₁ h₂ hK₁ hK₂ heq)
+
+open SMT in
+/-- **Different contents, different roots, end to end** — under collision-free hash functions and a
+path hasher that does not collide on the keys that occur (both explicit hypotheses). -/
+theorem C09_glue_over_trie_root_injective {H : Type} (h : Hash H) (cf : CollisionFree h) (c : Cfg R) (ph : Key → Path)
+    (n : Nat) (hlen : ∀ k, (ph k).length = n) (K : List Key) (hinj : InjOn ph K) (ops₁ ops₂ : List Op)
+    (h₁ : CleanFrom c init ops₁) (h₂ : CleanFrom c init ops₂)
+    (hK₁ : ∀ k ∈ keysOf ops₁, k ∈ K) (hK₂ : ∀ k ∈ keysOf ops₂, k ∈ K)
+    (hroot : (runOpsT (trieCalls c ph init ops₁)).digest h = (runOpsT (trieCalls c ph init ops₂)).digest h) :
+    ∀ k, Spec.final ops₁ k = Spec.final ops₂ k := by
+  have hw₁ := trieCalls_width c ph n hlen ops₁ (init : St R)
+  have hw₂ := trieCalls_width c ph n hlen ops₂ (init : St R)
+  simp only [T.digest, (runOpsT_expand _ hw₁).1, (runOpsT_expand _ hw₂).1] at hroot
+  have hp := C09_trie_root_injective h cf n _ _ hw₁ hw₂ hroot
+  have r₁ := specRun_trieCalls c ph K hinj ops₁ h₁ hK₁
+  have r₂ := specRun_trieCalls c ph K hinj ops₂ h₂ hK₂
+  intro k
+  by_cases hk : k ∈ K
+  · rw [← r₁.on k hk, ← r₂.on k hk, hp (ph k)]
+  · rw [r₁.out k hk, r₂.out k hk]
+
+/-- A path hasher for the example below: the eight bits of the first byte. -/
+def firstByteBits (k : Key) : SMT.Path := (List.range 8).map (fun i => (k.headD 0).toNat.testBit i)
+
+/-- The hypotheses are satisfiable: fixed length, no collision on three keys, and a history over them
+(overwrite, delete of an absent key, delete-and-reinsert, commit, reopen) issues exactly the expected
+trie calls. -/
+example : (∀ k, (firstByteBits k).length = 8) ∧ InjOn firstByteBits [[1], [2], [3]] ∧
+    trieCalls cfg0 firstByteBits init
+      [.set (some [1]) (some [7]), .del (some [2]), .set (some [1]) (some [8]), .commit, .reopen, .del (some [1]),
+       .set (some [3]) none, .set (some [1]) (some [8])]
+      = [.put (firstByteBits [1]) [7], .put (firstByteBits [1]) [8], .del (firstByteBits [1]), .put (firstByteBits [1]) [8]] :=
+  ⟨fun _ => by simp [firstByteBits], by unfold InjOn; decide, by decide⟩
 
 /-! ## several instances in one database
 
